@@ -162,7 +162,7 @@ _session = [c for c in SES.make('C17') if c.qualname.split('.')[-1] in (
 PROPERTY = Property(
     'C17', '\\Recent is announced to exactly one session and never stored',
     contracts=[FL.perm_init, FL.sess_update, FL.sess_get, FL.sess_add_recent, SELM.any_selected, D.message_copy,
-               append, claim_recent, ST.do_select] + _session,
+               append, claim_recent, ST.do_select] + D.CTOR_CONTRACTS + _session,
     registry=dict(list(ST.REG.items()) + list(REG.items())),
     lemmas=[Lemma('C17/lemma/delivery_keeps_recent_exactly_once', lemma_delivery),
             Lemma('C17/lemma/claim_keeps_recent_exactly_once', lemma_claim),
